@@ -34,6 +34,10 @@ theorem lessFn_of_le_le {rev : Bool} {a b c : Nat} (h1 : lessFn rev b a = false)
     lessFn rev c a = false := by
   cases rev <;> simp [lessFn] at * <;> omega
 
+theorem lessFn_of_lt_le {rev : Bool} {a b c : Nat} (h1 : lessFn rev a b = true) (h2 : lessFn rev c b = false) :
+    lessFn rev a c = true := by
+  cases rev <;> simp [lessFn] at * <;> omega
+
 /-! ## nodeOrAgg -/
 
 theorem orAgg_perm (rev : Bool) (l r : Stream) : (orAgg rev l r).Perm (l ++ r) := by
@@ -306,5 +310,173 @@ theorem buildStream_sourceOf (rev : Bool) (postings : List (List Nat)) (lid : Na
     have := (mem_buildStream rev postings (lid, i) hp).mpr ⟨l, hl, hmem⟩
     have := hnone _ this
     simp at this
+
+end SV.Agg
+
+namespace SV.Agg
+
+/-! ## multi-valued fields: which token of a document the iterator reports -/
+
+theorem sourceOf_none_of_lt (rev : Bool) (a : Nat × Nat) (s : Stream) (lid : Nat)
+    (hs : StreamSorted rev s) (h : ∀ b, b ∈ s → lessFn rev lid b.1 = true) : sourceOf s lid = none := by
+  unfold sourceOf
+  have : s.find? (fun p => p.1 = lid) = none := by
+    rw [List.find?_eq_none]
+    intro b hb
+    simp only [decide_eq_true_eq]
+    intro e
+    have := h b hb
+    rw [e, lessFn_irrefl] at this
+    cases this
+  simp [this]
+
+/-- `nodeOrAgg` on equal ids lets the right stream go first -/
+theorem orAgg_sourceOf (rev : Bool) (l r : Stream) (hl : StreamSorted rev l) (hr : StreamSorted rev r) (lid : Nat) :
+    sourceOf (orAgg rev l r) lid = (sourceOf r lid).or (sourceOf l lid) := by
+  fun_induction orAgg rev l r with
+  | case1 r => simp [sourceOf]
+  | case2 l _ => simp [sourceOf]
+  | case3 a l b r h ih =>
+    have hl' := List.pairwise_cons.mp hl
+    have hr' := List.pairwise_cons.mp hr
+    by_cases e : a.1 = lid
+    · have hnone : sourceOf (b :: r) lid = none := by
+        apply sourceOf_none_of_lt rev a _ _ hr
+        intro c hc
+        rw [← e]
+        rcases List.mem_cons.mp hc with rfl | hc
+        · exact h
+        · exact lessFn_of_lt_le h (hr'.1 c hc)
+      rw [hnone]
+      simp [sourceOf, List.find?_cons, e]
+    · have := ih hl'.2 hr
+      simp only [sourceOf, List.find?_cons, e, decide_false] at this ⊢
+      exact this
+  | case4 a l b r h ih =>
+    have hr' := List.pairwise_cons.mp hr
+    by_cases e : b.1 = lid
+    · simp [sourceOf, List.find?_cons, e]
+    · have := ih hl hr'.2
+      simp only [sourceOf, List.find?_cons, e, decide_false] at this ⊢
+      exact this
+
+/-- the source reported for `lid` by a list of streams merged by the OR tree: the last stream that carries it -/
+def lastSrc (lid : Nat) : List Stream → Option Nat
+  | [] => none
+  | s :: ss => (lastSrc lid ss).or (sourceOf s lid)
+
+theorem lastSrc_append (lid : Nat) (xs ys : List Stream) :
+    lastSrc lid (xs ++ ys) = (lastSrc lid ys).or (lastSrc lid xs) := by
+  induction xs with
+  | nil => simp [lastSrc]
+  | cons s xs ih => simp [lastSrc, ih, Option.or_assoc]
+
+theorem treeFold_orAgg_sourceOf (rev : Bool) (ss : List Stream) (hs : ∀ s, s ∈ ss → StreamSorted rev s) (lid : Nat) :
+    sourceOf (treeFold (orAgg rev) [] ss) lid = lastSrc lid ss := by
+  have := treeFold_ind (orAgg rev) [] (fun vs r => (∀ s, s ∈ vs → StreamSorted rev s) →
+      StreamSorted rev r ∧ sourceOf r lid = lastSrc lid vs)
+    (fun _ => ⟨List.Pairwise.nil, rfl⟩)
+    (fun v h => ⟨h v (by simp), by simp [lastSrc]⟩)
+    (fun xs ys a b ha hb h => by
+      have ha' := ha (fun s hs => h s (List.mem_append_left _ hs))
+      have hb' := hb (fun s hs => h s (List.mem_append_right _ hs))
+      refine ⟨orAgg_sorted rev a b ha'.1 hb'.1, ?_⟩
+      rw [orAgg_sourceOf rev a b ha'.1 hb'.1, lastSrc_append, ha'.2, hb'.2])
+    ss
+  exact (this hs).2
+
+theorem sourceOf_sourced (rev : Bool) (i : Nat) (p : List Nat) (lid : Nat) :
+    sourceOf (sourced rev i p) lid = if lid ∈ p then some i else none := by
+  unfold sourceOf
+  by_cases h : lid ∈ p
+  · have hm : (lid, i) ∈ sourced rev i p := (mem_sourced rev i p (lid, i)).mpr ⟨rfl, h⟩
+    cases hf : (sourced rev i p).find? (fun q => q.1 = lid) with
+    | none =>
+      rw [List.find?_eq_none] at hf
+      have := hf _ hm
+      simp at this
+    | some q =>
+      have hq := (mem_sourced rev i p q).mp (List.mem_of_find?_eq_some hf)
+      simp [h, hq.1]
+  · have : (sourced rev i p).find? (fun q => q.1 = lid) = none := by
+      rw [List.find?_eq_none]
+      intro q hq
+      have := (mem_sourced rev i p q).mp hq
+      simp only [decide_eq_true_eq]
+      intro e; rw [e] at this; exact h this.2
+    simp [this, h]
+
+theorem lastSrc_zip (rev : Bool) (lid : Nat) (k : Nat) (postings : List (List Nat)) (i : Nat)
+    (h : lastSrc lid ((zipIdxFrom k postings).map fun q => sourced rev q.1 q.2) = some i) :
+    k ≤ i ∧ (∃ l, postings[i - k]? = some l ∧ lid ∈ l) ∧
+    ∀ j l, i < j → postings[j - k]? = some l → lid ∉ l := by
+  induction postings generalizing k with
+  | nil => simp [zipIdxFrom, lastSrc] at h
+  | cons p ps ih =>
+    simp only [zipIdxFrom, List.map_cons, lastSrc] at h
+    cases hrest : lastSrc lid ((zipIdxFrom (k + 1) ps).map fun q => sourced rev q.1 q.2) with
+    | some i' =>
+      rw [hrest] at h
+      simp at h
+      subst h
+      have := ih (k + 1) hrest
+      refine ⟨by omega, ?_, ?_⟩
+      · obtain ⟨l, hl, hm⟩ := this.2.1
+        refine ⟨l, ?_, hm⟩
+        have e : i' - k = (i' - (k + 1)) + 1 := by omega
+        rw [e]; simpa using hl
+      · intro j l hj hjl
+        have e : j - k = (j - (k + 1)) + 1 := by omega
+        rw [e] at hjl
+        exact this.2.2 j l hj (by simpa using hjl)
+    | none =>
+      rw [hrest, sourceOf_sourced] at h
+      simp at h
+      by_cases hm : lid ∈ p
+      · simp [hm] at h
+        subst h
+        refine ⟨Nat.le_refl _, ⟨p, by simp, hm⟩, ?_⟩
+        intro j l hj hjl hmem
+        -- a later posting list holding lid would have been reported
+        have e : j - k = (j - (k + 1)) + 1 := by omega
+        rw [e] at hjl
+        have hjl' : ps[j - (k + 1)]? = some l := by simpa using hjl
+        have : ∀ (k' : Nat) (ps' : List (List Nat)) (n : Nat) (l' : List Nat), ps'[n]? = some l' → lid ∈ l' →
+            lastSrc lid ((zipIdxFrom k' ps').map fun q => sourced rev q.1 q.2) ≠ none := by
+          intro k' ps'
+          induction ps' generalizing k' with
+          | nil => intro n l' h'; simp at h'
+          | cons p' ps' ih' =>
+            intro n l' h' hmem'
+            simp only [zipIdxFrom, List.map_cons, lastSrc]
+            cases n with
+            | zero =>
+              simp at h'; subst h'
+              cases hr : lastSrc lid ((zipIdxFrom (k' + 1) ps').map fun q => sourced rev q.1 q.2) with
+              | some _ => simp
+              | none => simp [sourceOf_sourced, hmem']
+            | succ n =>
+              have := ih' (k' + 1) n l' (by simpa using h') hmem'
+              cases hr : lastSrc lid ((zipIdxFrom (k' + 1) ps').map fun q => sourced rev q.1 q.2) with
+              | some _ => simp
+              | none => exact absurd hr this
+        exact this (k + 1) ps _ l hjl' hmem hrest
+      · simp [hm] at h
+
+/-- **multi-valued fields**: when a document carries several tokens of the aggregated field, the iterator reports
+exactly one of them for it - the token with the largest index in the field's token order; the document is counted
+once, its other values are not aggregated -/
+theorem buildStream_last (rev : Bool) (postings : List (List Nat)) (lid i : Nat)
+    (hp : ∀ l, l ∈ postings → l.Pairwise (· < ·))
+    (h : sourceOf (buildStream rev postings) lid = some i) :
+    (∃ l, postings[i]? = some l ∧ lid ∈ l) ∧ ∀ j l, i < j → postings[j]? = some l → lid ∉ l := by
+  unfold buildStream at h
+  rw [treeFold_orAgg_sourceOf rev _ (by
+    intro s hs
+    obtain ⟨q, hq, rfl⟩ := List.mem_map.mp hs
+    have := (mem_zipIdxFrom 0 postings q.1 q.2).mp hq
+    exact sourced_sorted rev _ _ (hp _ (List.mem_of_getElem? this.2)))] at h
+  have := lastSrc_zip rev lid 0 postings i h
+  simpa using this.2
 
 end SV.Agg
